@@ -80,6 +80,7 @@ type trTranslator struct {
 	declSeen map[types.Object]bool
 	imports  map[*trUnit]map[*trUnit]bool
 	omitted  map[types.Object]map[string]bool // struct type → fields left out (untranslatable types)
+	noEq     map[types.Object]bool            // struct types with a field of function type
 }
 
 func (t *trTranslator) leanNS(u *trUnit) string {
@@ -246,6 +247,8 @@ func (t *trTranslator) leanType(from *trUnit, ty types.Type, pos token.Pos) stri
 			}
 		}
 		trFail(pos, "pointer type %s is outside the subset", x)
+	case *types.Signature:
+		return t.sigLeanType(from, x, pos)
 	case *types.Tuple:
 		if x.Len() == 0 {
 			return "Unit"
@@ -374,7 +377,7 @@ func (t *trTranslator) fieldOmitted(ty types.Type, field string) bool {
 
 func (t *trTranslator) hasOmitted(ty types.Type) bool {
 	o := t.structObj(ty)
-	return o != nil && len(t.omitted[o]) > 0
+	return o != nil && (len(t.omitted[o]) > 0 || t.noEq[o])
 }
 
 // needType emits the Lean declaration of a named knut type (and, for named ints, of its constants).
@@ -384,6 +387,12 @@ func (t *trTranslator) needType(u *trUnit, n *types.Named, pos token.Pos) {
 		return
 	}
 	t.declSeen[obj] = true
+	defer func() {
+		if r := recover(); r != nil {
+			t.declSeen[obj] = false // not declared after all: the next use fails in the same way
+			panic(r)
+		}
+	}()
 	name := trMangle(obj.Name())
 	tparams := ""
 	if n.TypeParams() != nil {
@@ -460,10 +469,18 @@ func (t *trTranslator) needType(u *trUnit, n *types.Named, pos token.Pos) {
 			sort.Strings(om)
 			note = "; fields of untranslatable types omitted: " + strings.Join(om, ", ")
 		}
-		fmt.Fprintf(&b, "/-- Go: `type %s struct` (%s)%s -/\nstructure %s where\n%s  deriving DecidableEq, Repr\n", obj.Name(), t.l.relPos(obj.Pos()), note, name, trJoinLines(fields))
+		deriving := "  deriving DecidableEq, Repr\n"
+		if t.typeHasFunc(ut, 0) {
+			deriving = "" // a field of function type: no decidable equality
+			if t.noEq == nil {
+				t.noEq = map[types.Object]bool{}
+			}
+			t.noEq[obj] = true
+		}
+		fmt.Fprintf(&b, "/-- Go: `type %s struct` (%s)%s -/\nstructure %s where\n%s%s", obj.Name(), t.l.relPos(obj.Pos()), note, name, trJoinLines(fields), deriving)
 		fmt.Fprintf(&b, "instance : GoZero %s := ⟨{ %s }⟩\n", name, strings.Join(zeros, ", "))
 		t.decls[u] = append(t.decls[u], b.String())
-	case *types.Slice, *types.Map:
+	case *types.Slice, *types.Map, *types.Signature:
 		lt := t.leanType(u, ut, pos)
 		t.decls[u] = append(t.decls[u], fmt.Sprintf("/-- Go: `type %s %s` (%s) -/\nabbrev %s%s := %s\n", obj.Name(), ut, t.l.relPos(obj.Pos()), name, tparams, lt))
 	case *types.Interface:
